@@ -882,9 +882,13 @@ def bi_itertools_chain_from_iterable(e, st, args, kw, node):
     length and contents are otherwise unconstrained here (callers needing more use a contract)"""
     from .symex2 import VGen
     src = args[0]
-    e.assumptions.add('itertools.chain.from_iterable: yields elements of the inner iterables (only the element type is used)')
+    e.assumptions.add('itertools.chain.from_iterable: order-preserving concatenation of the inner iterables')
     if isinstance(src, VGen):
+        # chain.from_iterable(f(x) for x in xs): order-preserving concatenation of the inner iterables; element j of the result is element pi(j) of
+        # the inner iterable of outer index ci(j); what the inner expression guarantees (e.g. a callee's postcondition) holds for every outer index
         g = src.node.generators[0]
+        if len(src.node.generators) != 1 or g.ifs:
+            raise Unsupported("chain.from_iterable over a filtered or nested generator")
         saved = st.cur
         st.cur = src.fid
         st2, outer = e.ev1(g.iter, st)
@@ -892,6 +896,7 @@ def bi_itertools_chain_from_iterable(e, st, args, kw, node):
         k = z3.Int(fresh_name('cf'))
         sc = st2.fork()
         sc.assume(0 <= k, k < it.n)
+        n0 = len(sc.pc)
         e.qvars.append(k)
         try:
             e.bind_target(sc, g.target, it.at(k))
@@ -900,8 +905,25 @@ def bi_itertools_chain_from_iterable(e, st, args, kw, node):
             e.qvars.pop()
         st.cur = saved
         inner = sc.lst(inner)
-        r = e.fresh_list(inner.elem, 'chained')
+        facts = [f for f in sc.pc[n0:]]
+        ek = inner.elem
+        m = z3.Int(fresh_name('flat.len'))
+        r = e.fresh_list(ek, 'chained', n=m)
+        ci = z3.Function(fresh_name('ci'), z3.IntSort(), z3.IntSort())
+        pi = z3.Function(fresh_name('pi'), z3.IntSort(), z3.IntSort())
+        j, j2 = z3.Int(fresh_name('fj')), z3.Int(fresh_name('fj2'))
+        sub = lambda t, x: z3.substitute(t, (k, x))
+        inn_n = lambda x: sub(inner.n, x)
+        inn_at = lambda x, y: [sub(c, x) for c in VList(inner.elem, inner.arrs, inner.off, inner.n).at(y).cols()]
+        st.assume(m >= 0)
+        body = [0 <= ci(j), ci(j) < it.n, 0 <= pi(j), pi(j) < inn_n(ci(j))] + \
+               [z3.Select(ra, j) == c for ra, c in zip(r.arrs, inn_at(ci(j), pi(j)))] + [sub(f, ci(j)) for f in facts]
+        st.assume(z3.ForAll([j], z3.Implies(z3.And(0 <= j, j < m), z3.And(*body)), patterns=[z3.Select(r.arrs[0], j), ci(j)] if r.arrs else [ci(j)]))
+        st.assume(z3.ForAll([j, j2], z3.Implies(z3.And(0 <= j, j < j2, j2 < m), z3.Or(ci(j) < ci(j2), z3.And(ci(j) == ci(j2), pi(j) < pi(j2)))),
+                            patterns=[MP(ci(j), ci(j2))]))
         st.assume(*e.wf(r, st))
+        st.notes['last_flatten'] = dict(ci=ci, pi=pi, m=m, n0=it.n, r=r, outer_at=it.at)
+        st.lists.update({i: v for i, v in sc.lists.items() if i not in st.lists})
         return st, st.new_list(r)
     if isinstance(src, (VListRef, VList)) and isinstance(st.lst(src).elem, LIST):
         # a list of lists: order-preserving flattening described by ghost index maps ci(j), pi(j) (outer / inner index of element j)
